@@ -77,6 +77,8 @@ def gen_case(rnd, idx, forced_ctx=None, forced_root=None, n=None):
     # a third of the projects write their type references through paths (std::vec::Vec<crate::T>): same types, same reachability
     spelling = rg.SPELLINGS[idx % 3] if idx % 3 == rnd.randrange(3) else None
     q = lambda text: rg.qualify(text, spelling, names)
+    inline_mods = idx % 4 == 2
+    inline_defined = set()
     body = {}
     for i in range(n):
         fields = [("id", "i32")]
@@ -88,6 +90,10 @@ def gen_case(rnd, idx, forced_ctx=None, forced_root=None, n=None):
             src = rg.enum_src(names[i], [("A",), ("B",)], derives=derives, derive_style=style)
         else:
             src = rg.struct_src(names[i], fields, derives=derives, derive_style=style)
+        if inline_mods and i % 2 == 1:
+            # the definition sits in an inline module of its file (pub mod models { .. }): still defined by that file
+            src = "pub mod m_%d_%d {\n    use super::*;\n%s}\n\n" % (idx, i, "".join("    " + ln + "\n" if ln else "\n" for ln in src.rstrip("\n").split("\n")))
+            inline_defined.add(names[i])
         body.setdefault(file_of[i], []).append(src)
     cmds = []
     for r, (target, rk, lab, ty) in enumerate(roots):
@@ -156,7 +162,7 @@ def gen_case(rnd, idx, forced_ctx=None, forced_root=None, n=None):
     info = {"parents": parents, "rootvia": rootvia, "names": names, "kinds": kinds, "nonserde": {names[i] for i in nonserde}, "via": {names[i]: sorted(v) for i, v in via.items()},
             "err_only": err_only, "n": n, "edges": sum(len(v) for v in edges.values()), "files": len(files),
             "has_cycle": any(j <= i for i in edges for (j, _, _) in edges[i]),
-            "all": set(names) | ({err_only} if err_only else set()), "spelling": spelling}
+            "all": set(names) | ({err_only} if err_only else set()), "spelling": spelling, "inline": inline_defined}
     return files, expected, info
 
 
@@ -208,7 +214,8 @@ def run_case(a):
                 if not via:
                     continue
                 via = sorted(set(via))
-                viol.append(("C07 missing via=%s" % "+".join(via[:3]), "reachable serde type %s (via %s) is not declared in types.ts" % (nm, via)))
+                where = " defined-in-inline-module" if nm in info["inline"] else ""
+                viol.append(("C07 missing via=%s%s" % ("+".join(via[:3]), where), "reachable serde type %s (via %s)%s is not declared in types.ts" % (nm, via, where)))
         for nm, c in got.items():
             if nm not in expected:
                 if nm in info["nonserde"]:
@@ -223,7 +230,7 @@ def run_case(a):
             if c > 1:
                 viol.append(("C07 declared-twice", "%s is declared %d times" % (nm, c)))
         r = {"viol": viol, "n": info["n"], "edges": info["edges"], "files": info["files"], "cycle": info["has_cycle"],
-             "expected": len(expected), "decoys": len(info["all"]) - len(expected), "spelling": info["spelling"]}
+             "expected": len(expected), "decoys": len(info["all"]) - len(expected), "spelling": info["spelling"], "inline": len(info["inline"])}
         if viol:
             r["witness"] = proj.witness_of(files, mode, extra={"expected": sorted(expected)})
         return r
@@ -265,6 +272,7 @@ def run(tier):
         v.count("decoy_types", r["decoys"])
         v.count("graphs_with_cycles", 1 if r["cycle"] else 0)
         v.count("graphs_with_path-qualified_type_references", 1 if r.get("spelling") else 0)
+        v.count("types_defined_in_inline_modules", r.get("inline", 0))
         v.count("multi_file_graphs", 1 if r["files"] > 1 else 0)
         for (sig, what) in r["viol"]:
             v.violation(sig, "%s mode: %s" % (job[3], what), r.get("witness"))
